@@ -65,3 +65,13 @@ Theorem C08_process_message_local :
   forall now a b m, lagree (m_round m) a b ->
   rrel (m_round m) (process_message now {| h_st := a; h_tr := [] |} m) (process_message now {| h_st := b; h_tr := [] |} m).
 Proof. exact process_message_local. Qed.
+
+(* non-vacuity: two rounds interleaved on one board; round 9 after the whole log is round 9 after
+   its own two messages, it exists, and the confirmation moved it *)
+Example C08_sublog_example :
+  let a := empty_node 2%N 3%N in
+  sublog 9%N ex_log = [(777%Z, ex_prop 9%N); (777%Z, ex_confirm 9%N)] /\
+  tget' (ns_rounds (run_msgs a ex_log)) 9%N = tget' (ns_rounds (run_msgs a (sublog 9%N ex_log))) 9%N /\
+  tget' (ns_rounds (run_msgs a ex_log)) 9%N <> None /\
+  tget' (ns_rounds (run_msgs a ex_log)) 9%N <> tget' (ns_rounds (run_msgs a [(777%Z, ex_prop 9%N)])) 9%N.
+Proof. exact sublog_example. Qed.
